@@ -45,6 +45,10 @@ fn main() {
     }
     // stop a sweep after this many failing cases (a hang costs real time per case)
     let maxfail: u64 = get("maxfail", "6").parse().unwrap();
+    // budget=<seconds>: stop taking new cases after this much real time (a loaded machine truncates
+    // the sample instead of tripping the caller's time limit)
+    let budget: u64 = get("budget", "0").parse().unwrap();
+    let t_start = std::time::Instant::now();
     fs::create_dir_all(outdir).unwrap();
     let mut summary = fs::File::create(format!("{outdir}/summary.txt")).unwrap();
     let mut rng = Rng::new(seed);
@@ -52,6 +56,7 @@ fn main() {
     if a[1] == "matrix" {
         // config matrix (C06): every block under several configurations; all must equal the oracle
         let mut paths: HashMap<String, u64> = HashMap::new();
+        let mut done = 0u64;
         for case in 0..count {
             let block_seed = rng.next();
             let mut crng = Rng(block_seed);
@@ -102,8 +107,13 @@ fn main() {
             }
             taken.sort(); taken.dedup();
             writeln!(summary, "case {case} block_seed={block_seed} n={n} paths={}", taken.join("+")).unwrap();
+            done = case + 1;
+            if budget > 0 && t_start.elapsed().as_secs() >= budget {
+                writeln!(summary, "stopped: time budget of {budget} s used after {done} of {count} cases").unwrap();
+                break;
+            }
         }
-        println!("cases={count} mismatches={mismatches} driver_failures=0 paths={paths:?}");
+        println!("cases={done} mismatches={mismatches} driver_failures=0 paths={paths:?}");
         return;
     }
     let cases: Vec<(u64, u64)> = if a[1] == "one" {
@@ -174,6 +184,10 @@ fn main() {
         }
         if mismatches + failures >= maxfail {
             writeln!(summary, "stopped after {} failing cases", mismatches + failures).unwrap();
+            break;
+        }
+        if budget > 0 && t_start.elapsed().as_secs() >= budget {
+            writeln!(summary, "stopped: time budget of {budget} s used after {} of {} cases", case + 1, cases.len()).unwrap();
             break;
         }
         if want_trace {
